@@ -209,6 +209,19 @@ static void check_double_to_float(cs::Ctx& ctx, double v) {
 
 static void run_case(cs::Src& s, cs::Ctx& ctx) {
   ctx.evaluations++;
+  if (s.below(16) == 1) {
+    // raw mode: arbitrary bytes (libFuzzer mutates the repository's MessagePack corpus here), judged
+    // by the verdict of the reference decoder on those very bytes
+    int limit = (int)s.range(0, 32);
+    std::string raw = s.take_bytes(400);
+    ctx.current_rendering = "raw input: " + cs::hex_bytes(raw, 800) + "\nlimit: " + std::to_string(limit);
+    judge(ctx, raw, limit, "raw bytes");
+    mref::DResult d = mref::decode(raw, limit);
+    if (d.status == mref::D_OK && raw.size() >= 3) ctx.nontrivial_str(raw);
+    else ctx.trivial++;
+    ctx.label("raw-bytes");
+    return;
+  }
   gen::Opts o;
   o.utf8_only = false;
   o.nonfinite = true;
